@@ -39,11 +39,11 @@ ASSUMPTIONS = [
     "InterfaceSliver.diff files the interface's own modification under 'services'; the oracle accepts it under "
     "services or interfaces (the statement does not name the list)",
 ]
-BUDGET = {"quick": 12000, "thorough": 250000}
+BUDGET = {"quick": 16000, "thorough": 300000}
 MIN_LABEL_FRACTION = {"mode:node": 0.4, "mode:service": 0.1, "mode:interface": 0.05, "op:set-tracked": 0.3,
-                      "op:add_nsvc|rm_nsvc": 0.08, "op:add_comp|rm_comp": 0.08, "below-smartnic-edit": 0.05,
+                      "op:add_nsvc|rm_nsvc": 0.06, "op:add_comp|rm_comp": 0.06, "below-smartnic-edit": 0.03,
                       "equal-user-data-both-sides": 0.15, "edits:0": 0.02, "op:set-untracked": 0.05,
-                      "op:add_sub|rm_sub": 0.05, "op:add_iface|rm_iface": 0.05}
+                      "op:add_sub|rm_sub": 0.04, "op:add_iface|rm_iface": 0.05, "expected-no-diff": 0.1}
 
 SIG_NS = "C17/NodeSliver.diff/added-removed/node-level-services-never-reported"
 SIG_UD = "C17/prop_diff/modified/equal-user-data-reported"
@@ -83,12 +83,10 @@ def _edit(draw, mode, avail):
     levels = [x for x in _LEVELS[mode] if x in avail]
     if op == "set":
         lvl = draw(st.sampled_from(levels))
-        if draw(st.integers(0, 4)) == 0:
-            prop = draw(st.sampled_from(UNTRACKED))
-        else:
-            prop = draw(st.sampled_from([t[0] for t in TRACKED]))
-        val = None if draw(st.integers(0, 4)) == 0 and prop != "stitch_node" else \
-            draw(E.value_desc("interface", prop, simple_json=True))
+        # (explicit tables: Hypothesis favours the first entries, which are the common choices here)
+        prop = draw(st.sampled_from(["labels", "capacities", "user_data"] * 4 + list(UNTRACKED)))
+        unset = draw(st.sampled_from([False, False, False, True, False]))
+        val = None if unset and prop != "stitch_node" else draw(E.value_desc("interface", prop, simple_json=True))
         return {"op": op, "lvl": lvl, "k": k, "prop": prop, "value": val}
     if op == "reformat_ud":
         return {"op": op, "lvl": draw(st.sampled_from(levels)), "k": k}
